@@ -19,6 +19,12 @@ claimed = {
  "C08": dict(cat="model_checking",
    text="One inductive step, decided by the solver for all values: from ANY state of a queue chain (depth 1..2 quick / 1..3 thorough; per queue limit, deserved quota (each possibly -1 = unlimited), allocated and non-preemptible allocated as symbolic integers) that satisfies the property's invariant, the real decision pipeline - CapacityPolicy.IsJobOverQueueCapacity, then per task IsTaskAllocationOnNodeOverCapacity (real NodeInfo.GetRequiredInitQuota), real NodeInfo.AddTask (sets AcceptedResource) and the real proportion allocate handler - re-establishes 'allocated <= limit' and 'non-preemptible allocated <= deserved' at every level. Whole-resource variant: 1..2 tasks, one resource dimension at a time (cpu / memory / whole GPUs). Fractional variant: fraction and gpu-memory requests from a menu x 1..2 devices on 1000 MiB GPUs, GPU dimension, integer+decimal arithmetic decided exactly without the FP theory. An inductive invariant covers histories of any length.",
    ref="DESIGN.md section 5 C08"),
+ "C07": dict(cat="model_checking",
+   text="The real Reclaimable.CanReclaimResources + Reclaimable.Reclaimable (reclaimResourcesFromReclaimees, subtractReclaimedResources, reclaimingQueuesRemainWithinBoundaries, saturation ratios, both reclaim strategies) are executed on two queue trees (sibling top queues; reclaimer under a parent vs a top-level reclaimee) with every per-queue number symbolic (deserved, limit incl. -1, fair share, allocated, non-preemptible; integers < 2^12), symbolic reclaimer request and 1 (quick) / 1..2 (thorough) symbolic victims, one resource dimension at a time. Whenever both accept, the solver decides for all values: each victim was taken from a leveled queue above its deserved quota or above its allocatable fair share; the reclaimer stays within its fair share; a non-preemptible reclaimer keeps non-preemptible allocation within deserved quota at every level; the reclaimer's ancestor does not end above its fair share while at least as saturated as the sibling (oracle compares ratios by cross-multiplication, independently of the code's division; float ratios are encoded exactly as rationals, no FP theory). Pre-states are constrained by the invariants of C08/C09 (listed in assumptions).",
+   ref="DESIGN.md section 5 C07"),
+ "C10": dict(cat="model_checking",
+   text="Kernel K1 (queue graphs): every parent assignment of N=3 (quick) / 4 (thorough) Queue objects - parent none, any queue including itself, or a missing queue, (N+2)^N graphs - goes through the real cluster_info.UpdateQueueHierarchy and then through every queue-hierarchy walker of the proportion plugin, capacity policy and reclaimable with a job in each surviving queue; a panic or a loop exceeding 64 iterations on a feasible path is the violation (non-termination witness by pigeonhole over N queues) and is replayed natively with a timeout; queues of well-formed graphs must all survive (healthy workloads still scheduled). This kernel explores structure by case-splitting (Choose), the quantities are concrete; symbolic-number kernels for malformed pod groups and GPU annotations are listed under C10 in DESIGN.md as they are added.",
+   ref="DESIGN.md section 5 C10"),
 }
 
 na_reasons = {}
